@@ -1,4 +1,5 @@
 import PBProofs.Lemmas.Updater
+import PBProofs.Lemmas.UpdaterNames
 import PB.Gen.Updater
 /-
 C19 — The updater selects the prescribed version and never purges what is needed.
@@ -340,6 +341,87 @@ theorem history_purge_safe (ops : List Op) (keep : Int) :
   · intro hp
     obtain ⟨f, h1, h2, _, h4, h5⟩ := purge_keeps_further q.2 keep hinv.1 hp
     exact ⟨f, h1, h2, h4, h5⟩
+
+/-! ### Versioned file names -/
+
+/-- (identifier, version) → file name → (identifier, version) is the identity for every identifier of the
+    documented form and every version of the documented raw format `x.y.z(-alpha)`. -/
+theorem filename_roundtrip (id ver : Str) (hv : matchRawVersion ver = true) (hid : ValidIdentifier id) :
+    getIdentifierAndVersion (getVersionedPath id ver) = some (id, ver) := by
+  obtain ⟨d1, d2, d3, suf, hp, rfl⟩ := matchRawVersion_shape hv
+  obtain ⟨hdir, hnos, hjoin⟩ := pathSplit_spec id
+  obtain ⟨hnodot, hsplit⟩ := splitDot_spec (pathSplit id).2
+  unfold ValidIdentifier at hid
+  generalize hd : (pathSplit id).1 = dir at *
+  generalize hf : (pathSplit id).2 = file at *
+  generalize hst : (splitDot file).1 = stem at *
+  generalize hex : (splitDot file).2 = ext at *
+  have hvp : getVersionedPath id (verText 46 d1 d2 d3 suf) =
+      dir ++ (stem ++ 95 :: (118 :: verText 45 d1 d2 d3 suf ++ extTail ext)) := by
+    unfold getVersionedPath
+    have e1 : pathSplit id = (dir, file) := by rw [← hd, ← hf]
+    have e2 : splitDot file = (stem, ext) := by rw [← hst, ← hex]
+    simp only [e1, e2, replace_dots hp]
+    cases ext <;> simp [extTail]
+  have hfile : file = stem ++ extTail ext := hsplit.symm
+  have hno : 47 ∉ stem ++ 95 :: (118 :: verText 45 d1 d2 d3 suf ++ extTail ext) := by
+    rw [hfile] at hnos
+    simp only [List.mem_append, not_or] at hnos
+    simp only [List.mem_append, List.mem_cons, not_or]
+    exact ⟨hnos.1, by decide, ⟨by decide, verText45_noslash hp⟩, hnos.2⟩
+  have hfind : findFileVer (stem ++ 95 :: (118 :: verText 45 d1 d2 d3 suf ++ extTail ext)) =
+      some (stem, 95 :: 118 :: verText 45 d1 d2 d3 suf, extTail ext) := by
+    rw [findFileVer_skip _ stem hid]
+    have hm := matchFileVer_run hp (extTail_cases ext)
+    simp only [List.cons_append] at hm
+    unfold findFileVer
+    simp only [List.cons_append, hm, Option.map_some, List.append_nil]
+    congr 2
+    have : (95 :: 118 :: (verText 45 d1 d2 d3 suf ++ extTail ext)) =
+        (95 :: 118 :: verText 45 d1 d2 d3 suf) ++ extTail ext := by simp
+    rw [this, List.drop_left]
+  rw [hvp]
+  unfold getIdentifierAndVersion
+  simp only [pathSplit_append dir hdir _ hno, hfind, dropWhile_uv hp, replace_dashes hp]
+  rw [← hfile, hjoin]
+
+/-- file name → (identifier, version) → file name is the identity for every file name of the documented form
+    (version directly in front of the extension), and the version it yields has the documented raw format. -/
+theorem filename_roundtrip_back (p id v : Str) (h : getIdentifierAndVersion p = some (id, v))
+    (hdoc : VersionBeforeExtension p) : getVersionedPath id v = p ∧ matchRawVersion v = true := by
+  obtain ⟨hdir, hnos, hjoin⟩ := pathSplit_spec p
+  unfold VersionBeforeExtension at hdoc
+  unfold getIdentifierAndVersion at h
+  generalize hd : (pathSplit p).1 = dir at *
+  generalize hf : (pathSplit p).2 = file at *
+  have e1 : pathSplit p = (dir, file) := by rw [← hd, ← hf]
+  simp only [e1] at h
+  cases hfind : findFileVer file with
+  | none => simp [hfind] at h
+  | some t =>
+    obtain ⟨b, m, a⟩ := t
+    simp only [hfind, Option.some.injEq, Prod.mk.injEq] at h
+    obtain ⟨hid, hv⟩ := h
+    obtain ⟨hnodot, htail⟩ := hdoc b m a hfind
+    obtain ⟨hfile, hm⟩ := findFileVer_spec hfind
+    obtain ⟨d1, d2, d3, suf, rest, hp, rfl, hrest⟩ := matchFileVer_shape hm
+    rw [dropWhile_uv hp, replace_dashes hp] at hv
+    subst hv
+    refine ⟨?_, matchRawVersion_run hp⟩
+    obtain ⟨ext, hext⟩ : ∃ ext, a = extTail ext := by
+      rcases htail with rfl | ⟨e, rfl⟩
+      · exact ⟨none, rfl⟩
+      · exact ⟨some e, rfl⟩
+    subst hext
+    have hno : 47 ∉ b ++ extTail ext := by
+      rw [hfile] at hnos
+      simp only [List.mem_append, not_or] at hnos ⊢
+      exact ⟨hnos.1.1, hnos.2⟩
+    unfold getVersionedPath
+    rw [← hid]
+    simp only [pathSplit_append dir hdir _ hno, splitDot_append b hnodot ext, replace_dots hp]
+    rw [← hjoin, hfile]
+    cases ext <;> simp [extTail]
 
 /-! ### Regenerated regex literals -/
 
